@@ -19,7 +19,7 @@ HARNESS_ENV = {'PXHARNESS_TEXT': '1'}
 def generate(rng, tier):
     n = 250 if tier == 'quick' else 5000
     o = gen.Opts(p_base=0.8, p_vftable=0.45, p_impl=0.7, p_enum=0.0, p_backend=0.0, p_extern_val=0.0, p_extern_type=0.1,
-                 p_priv=0.3, max_modules=2, max_items=7, max_fields=2, p_packed=0.0, p_index=0.2, p_vft_size=0.2)
+                 p_priv=0.3, max_modules=2, max_items=7, max_fields=2, p_packed=0.0, p_index=0.2, p_vft_size=0.2, p_underscore=0.12)
     out = std_worlds(rng, n, o)
     # clash stream: rename functions so that several bases export the same name
     for c in out[: n // 3]:
@@ -86,6 +86,7 @@ def judge(c, impl, model):
         for it in items:
             if tag(it) == 'impl': impls[it[1]] = it
             if tag(it) == 'struct': structs[it[5]] = (mp, it)
+    input_impl_fns = [(mp, im_[1], f) for (mp, file, m) in modules_of(c) for im_ in m_impls(m) for f in im_[3:]]
     def tyname(t):
         return t[1] if tag(t) == 'id' else None
     def hierarchy(name, prefix, depth=0):
@@ -148,6 +149,19 @@ def judge(c, impl, model):
                     params = find(mt, 'params')[1:]
                     args = [[S('v'), p_[1]] for p_ in params if not isinstance(p_, Sym)]
                     expected.append((newname, bf[2], nm, params, opt(mt[5]), args))
+        # public functions of a base whose name starts with `_` are "internal": the base gets no wrapper for them (open finding
+        # C05/…/underscore-name) and so nothing can be forwarded; the property's "every public function" does not hold for them
+        for i, bf in enumerate(bfs):
+            bname = tyname(bf[3])
+            if bname not in defs: continue
+            bmp, bd = defs[bname]
+            cand = [f for (imp_, tn, f) in input_impl_fns if tn == bname]
+            if i > 0:
+                for stt in type_stmts(bd):
+                    if tag(stt) == 'vftable': cand += stt[2:]
+            for f in cand:
+                if fn_pub(f) and fn_name(f).startswith('_'):
+                    report('C07/base-function-not-reexposed/underscore-name', '%s: %s.%s' % (name, bname, fn_name(f)))
         got = [m_ for m_ in methods if tag(method_body(m_)) == 'call-field']
         exp_emitted = [e for e in expected if not e[0].startswith('_')]
         checked += len(exp_emitted)
